@@ -588,6 +588,15 @@ func (s *skel) stmt(st ast.Stmt) {
 	case *ast.ReturnStmt:
 		for _, r := range x.Results {
 			s.expr(r)
+			// does an encoder hand out the bytes of a (pooled) buffer or a copy of them?
+			if c, ok := r.(*ast.CallExpr); ok {
+				fn := exprStr(c.Fun)
+				if fn == "bytes.Clone" {
+					s.emit("ret:clone")
+				} else if strings.HasSuffix(fn, ".Bytes") {
+					s.emit("ret:bufferBytes")
+				}
+			}
 		}
 		s.emit("return")
 	case *ast.IfStmt:
